@@ -3,7 +3,7 @@ CONSTANTS
   Nil = Nil
   Locked = TRUE
   CheckUnderLock = TRUE
-  Canon = FALSE
+  Level = 3
 INVARIANTS
   RightSet
   NoTornRead
